@@ -8,7 +8,7 @@ for d in sorted(glob.glob(os.path.join(V, "seeded", "*", ""))):
     name = os.path.basename(d.rstrip("/"))
     first = next((c for c in m["checks_run"] if c["check"].split()[1] == m["property"]), None)
     missed_first = first is not None and first["exit"] != 1
-    rows.append("| `%s` | %s | %s | %s |" % (name, m["needs_to_manifest"], ", ".join(m["detected_by"]) or "MISSED",
+    rows.append("| `%s` | %s | %s | %s |" % (name, m["needs_to_manifest"], ", ".join(m["detected_by"]) or ("not a violation of the property (see note)" if m.get("outside_the_property") else "MISSED"),
                                             ("first run: exit %d. " % first["exit"] if missed_first else "") + m.get("note", "")))
 table = "| change | what it needs to manifest | caught by (quick tier) | note |\n|---|---|---|---|\n" + "\n".join(rows) + "\n"
 p = os.path.join(V, "DESIGN.md")
